@@ -206,11 +206,12 @@ def check_yields(repo: Repo, rep: Report):
         raise AnalysisError(f"only {n} analyses with an analyze method (9 on the pinned tree)")
     # the consumer stores exactly what analyze produced
     ca = repo.cls("fickling.analysis.AnalysisContext").method("analyze")
-    ok = any(isinstance(x, ast.Assign) and isinstance(x.value, ast.Call) and dotted(x.value.func) == "list" and isinstance(x.value.args[0], ast.Call) and isinstance(x.value.args[0].func, ast.Attribute) and x.value.args[0].func.attr == "analyze" for x in body_walk(ca.node))
-    if ok:
-        rep.ok("C19.yield-type", ca.qualname, "results = list(analysis.analyze(self))", f"{ca.file}:{ca.line}")
+    # (any way of iterating it: list(...), a comprehension, a for loop - what it then keeps is C10.aggregate's subject)
+    calls = [x for x in body_walk(ca.node) if isinstance(x, ast.Call) and isinstance(x.func, ast.Attribute) and x.func.attr == "analyze" and x.args and dotted(x.args[0]) == "self"]
+    if calls:
+        rep.ok("C19.yield-type", ca.qualname, f"consumes `{src(calls[0])}` by iteration", f"{ca.file}:{ca.line}")
     else:
-        raise AnalysisError("AnalysisContext.analyze: `results = list(analysis.analyze(self))` not recognised")
+        raise AnalysisError("AnalysisContext.analyze: no `<analysis>.analyze(self)` call found (anchor vanished)")
 
 
 def check_result_shape(repo: Repo, rep: Report):
